@@ -16,8 +16,15 @@ KNOWN_DEMOS = {}     # json(sig) -> callable() -> bool (finding still present on
 PROPS = {}
 
 
+def _default_cmp(a, b):
+    # a panic of the real code is compared by kind only (the message text is Rust's)
+    if a.startswith("PANIC") and b.startswith("PANIC"):
+        return True
+    return a == b
+
+
 def cmp_for(comp):
-    return CMP.get(comp, lambda a, b: a == b)
+    return CMP.get(comp, _default_cmp)
 
 
 _CONSTS = None
@@ -39,10 +46,11 @@ def scale(tier, quick, thorough):
     return thorough if tier == "thorough" else quick
 
 
-from gens import pure, wire, mtu, txring, rx  # noqa: E402,F401  (registers generators / oracles)
+from gens import pure, wire, mtu, txring, rx, segs  # noqa: E402,F401  (registers generators / oracles)
 
 pure.register(sys.modules[__name__])
 wire.register(sys.modules[__name__])
 mtu.register(sys.modules[__name__])
 txring.register(sys.modules[__name__])
 rx.register(sys.modules[__name__])
+segs.register(sys.modules[__name__])
